@@ -1,11 +1,13 @@
 # second part of the obligation registry (exec'd by obs_def.py): the evaluator properties
 FIND_STUB = {"target": "ckc_rs::cards::five::Five::find_in_products", "with": "crate::stubs::find_in_products_contract",
-             "proved_by": "C05.find_total (Verus: total, result < 4888, function of the key)"}
+             "proved_by": "C05.find_total (Verus: total, result < 4888, function of the key)", "proved_by_obs": ["C05.find_total"]}
 V_STUB = {"target": "<ckc_rs::cards::five::Five as ckc_rs::cards::HandRanker>::hand_rank_value_and_hand",
           "with": "crate::stubs::five_vh_ghost_v",
-          "proved_by": "C01.rep_* + C01.k1 + C01.k3 (value in 1..=7462, function of the card set) and C03.five_identity (hand unchanged)"}
+          "proved_by": "C01.rep_* + C01.k1 + C01.k3 (value in 1..=7462, function of the card set) and C03.five_identity (hand unchanged)",
+          "proved_by_obs": ["C01.rep_distinct", "C01.rep_quads", "C01.rep_full_house", "C01.rep_trips", "C01.rep_two_pair", "C01.rep_pair", "C01.k1", "C01.k3", "C03.five_identity"]}
 TOTAL_STUB = {"target": "<ckc_rs::cards::five::Five as ckc_rs::cards::HandRanker>::hand_rank_value_and_hand",
-              "with": "crate::stubs::five_vh_total", "proved_by": "C05.five_safe (returns normally, value <= 7462) and C03.five_identity"}
+              "with": "crate::stubs::five_vh_total", "proved_by": "C05.five_safe (returns normally, value <= 7462) and C03.five_identity",
+              "proved_by_obs": ["C05.five_safe", "C03.five_identity"]}
 FIXED5 = {"target": "<ckc_rs::cards::five::Five as ckc_rs::cards::HandRanker>::hand_rank_value_and_hand",
           "with": "crate::stubs::five_vh_fixed", "proved_by": "none needed: the obligation is conditional on the callee returning (v, self); v is arbitrary"}
 FIXED6 = {"target": "<ckc_rs::cards::six::Six as ckc_rs::cards::HandRanker>::hand_rank_value_and_hand",
@@ -125,3 +127,15 @@ ob("C06.cards_link_native", "c06::cards_link_native", {"C06": "N"},
    "native only: hand_rank() of five distinct cards has the category and class of the cards", [], engine="native")
 ob("C13.name_native", "c13::name_native", {"C13": "N"},
    "native only: predicates agree with hand_rank().name", [], engine="native")
+
+# ------------------------------------------------------------------ later additions (ob/extra.rs)
+ob("C01.sort_lemma", "extra::sort_lemma", {"C01": "H", "C02": "H", "C03": "H", "C04": "H", "C06": "H", "C08": "H", "C09": "H", "C13": "H"},
+   "spec-level arithmetic lemma: for all five ranks, sorting them (the network used by the oracle) preserves the OR of the rank bits, the product of the rank primes and the multiset: composes k1 + k3 + rep_* into 'every slot order'",
+   [], timeout=1200, weight=2)
+ob("C15.peel_all", "extra::peel_all", {"C15": "P"},
+   "forall sets b < 2^52: peeling to exhaustion (53 peels, unrolled) lists exactly the members of b in strictly descending deck order, then blank with the set unchanged",
+   ["BC64::peel"], tier="thorough", unwind=66, timeout=3600, weight=4)
+ob("C12.card_token_bytes", "extra::card_token_bytes", {"C12": "P"},
+   "every byte string of length <= 4 that is valid UTF-8: from_index == the card of its first two characters through the symbol tables, else blank; no panic",
+   ["PokerCard::from_index", "parse::get_rank_and_suit"], tier="thorough", unwind=8, timeout=3600, weight=4,
+   bounded="token length <= 4 bytes")
